@@ -50,6 +50,7 @@ type Ev struct {
 	Base     RV   // field load/store events: the (resolved) struct pointer
 	Field    *types.Var
 	Note     string       // free-form payload (facts emitted by probes)
+	Ver      int          // lock operations: which execution of the loop body defined the locked object (0 outside loops)
 	Elems    map[int][]RV // call events: resolved elements of arguments that are slice literals ([]T{a, b})
 }
 
@@ -140,6 +141,8 @@ type PPA struct {
 	// HeapForward also forwards a store to a field of an object reached through a parameter
 	// of the analysed function (x.f = v ... x.f) to later loads on the path, as long as no call,
 	// go, channel operation or deferred call intervenes.
+	foldDepth   int
+	resDepth    int
 	preArgs     []RV // operands captured at defer time for the deferred call being entered
 	HeapForward bool
 	NoAuto      bool
@@ -380,6 +383,12 @@ func frameResolve(rv RV) RV {
 // Resolve follows parameters, free variables, φ-nodes, inlined call results
 // and loads of tracked cells to the defining value.
 func (e *PPA) Resolve(st *State, rv RV) RV {
+	// recursion (tuples, struct fields, arithmetic) is bounded: a cyclic binding must never exhaust the stack
+	if e.resDepth > 100 {
+		return rv
+	}
+	e.resDepth++
+	defer func() { e.resDepth-- }()
 	for i := 0; i < 64; i++ {
 		switch v := rv.V.(type) {
 		case *ssa.Parameter:
@@ -488,8 +497,14 @@ func (e *PPA) Resolve(st *State, rv RV) RV {
 			if v.Op != token.ADD && v.Op != token.SUB {
 				return rv
 			}
+			// a counter whose start is not a constant resolves, through its φ, to this very operation: bounded
+			if e.foldDepth > 6 {
+				return rv
+			}
+			e.foldDepth++
 			x := e.Resolve(st, RV{rv.F, v.X})
 			y := e.Resolve(st, RV{rv.F, v.Y})
+			e.foldDepth--
 			cx, okx := constInt(x.V)
 			cy, oky := constInt(y.V)
 			if !okx || !oky {
@@ -1083,6 +1098,10 @@ func (e *PPA) callEv(st *State, fr *Frame, in ssa.CallInstruction, prefix string
 		if fa, ok := ev.Args[0].V.(*ssa.FieldAddr); ok {
 			ev.Base = e.Resolve(st, RV{ev.Args[0].F, fa.X})
 			ev.Field = fieldOf(fa)
+			// an object computed inside a loop is a different object on every iteration
+			if di, ok := ev.Base.V.(ssa.Instruction); ok && ev.Base.F != nil && di.Block() != nil {
+				ev.Ver = st.visits[[2]int{ev.Base.F.ID, di.Block().Index}]
+			}
 		}
 	}
 	return ev
